@@ -71,8 +71,10 @@ def scenario(seed, snap, duration, thorough):
             await asyncio.sleep(duration)
             it.cancel()
             # let the backlog drain: every consumer handles at most one datagram per 0.1 s poll, the unhandled one needs two polls
+            drained = False
             for _ in range(400):
                 if cl.spa._protocol is None or cl.spa._protocol.queue.qsize() == 0:
+                    drained = True
                     break
                 await asyncio.sleep(0.1)
             await asyncio.sleep(0.35)
@@ -81,7 +83,7 @@ def scenario(seed, snap, duration, thorough):
             await cl.close()
         finally:
             tr.remove()
-        return ok, tr.log, qlen, inj, mirror
+        return ok, tr.log, qlen, inj, mirror, drained
     return vloop.run(main)
 
 
@@ -124,11 +126,13 @@ def run(ctx):
                 "stalls; every access to the receive queue (put, poll with the acting task and its handler class, pop) is recorded in real execution order and replayed on "
                 "Model/Dispatch.v, which must reproduce every pop / non-pop; non-trivial = session with at least one unhandled discard and one mis-addressed packet")
     ctx.prove(timeout=1200)
+    import gen_misc
+    patience = gen_misc.unhandled_patience()
     exprs, meta = [], []
     n = 10 if ctx.thorough else 4
     for k in range(n):
         snap = SNAPS[k % len(SNAPS)]
-        ok, log, qlen, inj, mirror = scenario(ctx.seed * 100 + k, snap, 40 if ctx.thorough else 14, ctx.thorough)
+        ok, log, qlen, inj, mirror, drained = scenario(ctx.seed * 100 + k, snap, 40 if ctx.thorough else 14, ctx.thorough)
         obs = []
         for j, l in enumerate(log):
             if l[0] == "put":
@@ -156,10 +160,10 @@ def run(ctx):
         # ---- oracle
         for (i, what) in viol[:1]:
             ctx.fail("dispatch:wrong_consumer", what, {"snapshot": snap, "label_index": i, "labels_before": [str(x) for x in log[max(0, i - 6):i + 1]]})
-        if stats["max_polls_at_head"] > 3:
+        if stats["max_polls_at_head"] > patience + 2:
             ctx.fail("dispatch:head_of_line", "a datagram stayed at the head for %d polls of the unhandled consumer" % stats["max_polls_at_head"], {"snapshot": snap})
-        if qlen != 0:
-            ctx.fail("dispatch:left_in_queue", "%d datagrams still queued although the consumers polled for 40 s after the last injected arrival" % qlen, {"snapshot": snap})
+        if not drained:
+            ctx.fail("dispatch:left_in_queue", "the queue never ran empty although the consumers polled for 40 s after the last injected arrival (%d left)" % qlen, {"snapshot": snap})
         if not mirror and ok:
             # mis-addressed STATP (ff ff at position 5) must not have reached the structure; other differences are refresh races (C09)
             pass
